@@ -87,17 +87,20 @@ func checkFullWith(c *Case, prop string, compute func(n *hx.Node, fd *hx.Field, 
 	add := func(kind, sig, format string, args ...interface{}) {
 		ds = append(ds, hx.Discrepancy{Kind: kind, Sig: sig, Detail: fmt.Sprintf(format, args...)})
 	}
+	x := &hx.Exec{S: c.Schema, G: c.Graph, D: c.Doc, Faults: c.Faults, Echo: c.Echo, Compute: compute}
+	if c.Universe {
+		x.ComputeFault = UniverseFault
+	}
+	exp = x.Run(c.Op, c.VarMap())
+	if c.TightDepth > 0 && !exp.Rejected {
+		c.DepthAfter = exp.T.MaxLevels + depthSlack + c.TightDepth - 1
+	}
 	var err error
 	w, err = NewWorld(c)
 	if err != nil {
 		add("setup", "", "%v", err)
 		return
 	}
-	x := &hx.Exec{S: c.Schema, G: c.Graph, D: c.Doc, Faults: c.Faults, Echo: c.Echo, Compute: compute}
-	if c.Universe {
-		x.ComputeFault = UniverseFault
-	}
-	exp = x.Run(c.Op, c.VarMap())
 	var text string
 	var pan interface{}
 	res, text, pan = w.Resolve()
